@@ -37,6 +37,8 @@ def text(rnd, maxtok=3, surrogate_p=0.0, pool=None):
         s = s[:i] + rnd.choice(SURR) + s[i:]
     if s and rnd.random() < 0.04:          # a line terminator at either END of an otherwise ordinary text ('$' / '^' anchored tests)
         nl = rnd.choice(["\n", "\r", "\n", "\x0b", "\u2028"])
+        if rnd.random() < 0.5:          # ... of a plain word, which is what such a fast path is written for
+            s = rnd.choice(["v1", "a", "x-y_z~0", "Index", "42"])
         s = s + nl if rnd.random() < 0.7 else nl + s
     return s
 
